@@ -440,6 +440,7 @@ class Job(object):
         self.split_results = []
         self.wide = None            # kind of wide unit (gen/wideunits.py)
         self.types = None           # type-expression shapes of a library + client program (gen/typeprogs.py)
+        self.type_consts = False    # the library exports constants of those types as well
 
     def perform_level(self, q):
         t = self.trees[q]
@@ -456,7 +457,7 @@ class Job(object):
         os.makedirs(d, exist_ok=True)
         libref = "plib.ao" if s["form"] == "ao" else "libplib.al"
         if self.types is not None:
-            lib_text, client_text, _ = typeprogs.render(self.types)
+            lib_text, client_text, _ = typeprogs.render(self.types, consts=self.type_consts)
             client_text = client_text % libref
             res = {"split": s, "dir": d, "lib_ok": False, "run": None, "lib_throws": False, "lib_funs": [typeprogs.text(t) for t in self.types]}
         else:
@@ -569,6 +570,10 @@ def run(chk, tier):
         j = Job(b, wd, pid, text, None)
         j.wide = k
         jobs.append(j)
+    for j in jobs:
+        if j.wide is not None:
+            for t in j.trees.values():
+                t.TIMEOUT = 150          # type inference of the 260-field record alone takes 10 s and more
     order = list(shapes)
     rnd.shuffle(order)
     groups = [order[i:i + 6] for i in range(0, len(order), 6)]
@@ -580,9 +585,16 @@ def run(chk, tier):
             if not any(kind in typeprogs.leaves(x) for g in groups for x in g):
                 groups[0][-1] = [x for x in rest if kind in typeprogs.leaves(x)][0]
     for gi, g in enumerate(groups):
-        j = Job(b, wd, "types_%d" % gi, typeprogs.render(g)[2], None)
+        # odd groups export constants of the types too and are split with the library as .ao only (see typeprogs.render)
+        j = Job(b, wd, "types_%d" % gi, typeprogs.render(g, consts=bool(gi % 2))[2], None)
         j.types = g
+        j.type_consts = bool(gi % 2)
         jobs.append(j)
+    # fixed: one type, its constant read by the client from an archive member (open finding, kept visible)
+    j = Job(b, wd, "types_al_const", typeprogs.render([{"args": [{"leaf": "int", "v": 1}]}], consts=True)[2], None)
+    j.types = [{"args": [{"leaf": "int", "v": 1}]}]
+    j.type_consts = True
+    jobs.append(j)
 
     # every path is performed at least once across the programs: deal a shuffled deck round-robin
     deck = list(indirect)
@@ -606,9 +618,12 @@ def run(chk, tier):
             chosen = {(p["level"], tuple(p["chain"]), p["final"]): p for p in indirect
                       if p["level"] in lv and tuple(p["chain"]) in wide_chains and p["final"] in fin
                       and not (tuple(p["chain"]) != ("ao",) and p["final"] != "fm")}
+        elif j.pid == "types_al_const":
+            j.splits = [{"lib": [1, 2, 3], "form": "al", "qlib": "Q2", "qclient": "Q2", "route": "run"}]
         elif j.types is not None:
+            pool = [sp for sp in full3 if sp["form"] == "ao"] if j.type_consts else full3
             for _ in range(3 if quick else 8):
-                j.splits.append(full3[ti % len(full3)])
+                j.splits.append(pool[ti % len(pool)])
                 ti += 1
         for _ in range(0 if (j.wide is not None or j.types is not None) else min(6 if j.pid in xunit else per_prog, len(deck))):
             p = deck[pi % len(deck)]
@@ -892,6 +907,8 @@ def report(chk, bad, ev, rec, direct_forms, values, huge):
     key = {"what": what, "program_kind": "wide" if j.wide else "types" if j.types is not None else "generated" if j.prog is not None else "corpus"}
     if j.wide:
         key["wide"] = j.wide
+    if j.types is not None:
+        key["lib_consts"] = bool(j.type_consts)
     detail = {"event": ev, "why": why, "program_id": j.pid, "source": j.text[:30000]}
     if "path" in rec and "splitres" not in rec:
         p = rec["path"]
@@ -922,7 +939,7 @@ def report(chk, bad, ev, rec, direct_forms, values, huge):
                    cross_inline=(s["qclient"] == "Q9" and s["qlib"] in ("Q2", "Q9")), lib_throws=bool(rec["splitres"].get("lib_throws")))
         detail.update(split=s, lib_funs=rec["splitres"]["lib_funs"])
         if j.types is not None:
-            lt, ct, _ = typeprogs.render(j.types)
+            lt, ct, _ = typeprogs.render(j.types, consts=j.type_consts)
             detail.update(library=lt[:20000], client=(ct % ("plib.ao" if s["form"] == "ao" else "libplib.al"))[:20000])
     if res is not None:
         if ev["ev"] in ("Final", "LinkRun") and ev.get("ok") and res.get("phase"):
